@@ -10,7 +10,8 @@ from vlib.runner import Result, SubCheck, Violation
 
 PROPERTY = "C09"
 LEVEL = "exploration"
-RULE = ("Generated trained bandits of every policy pair except TreeBandit with EpsilonGreedy(epsilon>0) (excluded by "
+RULE = ("One case in eight (no neighbourhood policy): some arms trained, the others warm-started from them, then every trained arm removed. "
+        "Generated trained bandits of every policy pair except TreeBandit with EpsilonGreedy(epsilon>0) (excluded by "
         "the property), histories with unobserved arms, arm changes and tiny integer rewards so that exact ties for "
         "the maximum are common; query batches of 1..6 rows. Two deep copies of the same bandit: p = A.predict(Q), e = "
         "B.predict_expectations(Q). For every row p must be the first arm in arm-list order whose expectation equals "
